@@ -40,6 +40,9 @@ def build_solver(ob, timeout_ms=None):
         s.add(h)
     for f in (ob.facts or []):
         s.add(f)
+    for h in getattr(ob, 'hints', []):
+        if h.proved:
+            s.add(to_z3(h.goal))
     s.add(z3.Not(to_z3(ob.goal)))
     return s
 
@@ -62,48 +65,58 @@ def _run_cli(cmd, path, timeout_s):
 
 def _decide(args):
     ob, path, timeout_s = args
-    cfgs = [('z3-5.1', [Z3_CLI, '-T:%d' % timeout_s]),
-            ('z3-5.1/no-mbqi', [Z3_CLI, '-T:%d' % timeout_s, 'smt.mbqi=false', 'smt.auto_config=false']),
-            ]
-    total = 0.0
-    last = ''
-    for name, cmd in cfgs:
-        st, sec, detail = _run_cli(cmd, path, timeout_s)
-        total += sec
-        last = detail
-        if st in ('sat', 'unsat'):
-            if st == 'sat' and name != 'z3-5.1':
-                # only trust sat from the complete configuration
-                continue
-            return Verdict(ob, st, name, total)
-    return Verdict(ob, 'unknown', 'z3-5.1', total, last)
+    st, sec, detail = _run_cli([Z3_CLI, '-T:%d' % timeout_s], path, timeout_s)
+    if st in ('sat', 'unsat'):
+        return Verdict(ob, st, 'z3-5.1', sec)
+    total = sec
+    if sec < 0.5 * timeout_s:
+        # gave up early (incomplete quantifier reasoning): second configuration, unsat only
+        st2, sec2, detail2 = _run_cli([Z3_CLI, '-T:%d' % max(2, timeout_s // 2), 'smt.mbqi=false', 'smt.auto_config=false'],
+                                      path, max(2, timeout_s // 2))
+        total += sec2
+        if st2 == 'unsat':
+            return Verdict(ob, 'unsat', 'z3-5.1/no-mbqi', total)
+    return Verdict(ob, 'unknown', 'z3-5.1', total, (detail or 'incomplete').strip())
 
 
 def discharge(obligations, timeout_s=10, jobs=16, keep_dir=None):
-    """returns list of Verdict in the order of `obligations`"""
+    """returns list of Verdict in the order of `obligations`.  Obligations that depend on
+    hints are decided after their hints (rounds)."""
     out = [None] * len(obligations)
-    work = []
     tmp = keep_dir or tempfile.mkdtemp(prefix='pyvc-')
+    pending = list(range(len(obligations)))
     try:
-        for k, ob in enumerate(obligations):
-            g = ob.goal
-            if z3.is_true(g):
-                out[k] = Verdict(ob, 'unsat', 'simplifier', 0.0)
-                continue
-            s = build_solver(ob)
-            path = os.path.join(tmp, 'q%04d.smt2' % k)
-            with open(path, 'w') as fh:
-                fh.write(s.to_smt2())
-            work.append((k, (ob, path, timeout_s)))
-        with ThreadPoolExecutor(max_workers=jobs) as ex:
-            for (k, _), v in zip(work, ex.map(_decide, [w for _, w in work])):
-                out[k] = v
+        rnd = 0
+        while pending:
+            ready = [k for k in pending if all(h.proved is not None for h in getattr(obligations[k], 'hints', []))]
+            if not ready:
+                ready = pending   # hints outside this batch: treat as unproved
+            work = []
+            for k in ready:
+                ob = obligations[k]
+                g = ob.goal
+                if z3.is_true(g):
+                    out[k] = Verdict(ob, 'unsat', 'simplifier', 0.0)
+                    ob.proved = True
+                    continue
+                s = build_solver(ob)
+                path = os.path.join(tmp, 'q%04d.smt2' % k)
+                with open(path, 'w') as fh:
+                    fh.write(s.to_smt2())
+                t = timeout_s if ob.kind != 'hint' else min(timeout_s, 10)
+                work.append((k, (ob, path, t)))
+            with ThreadPoolExecutor(max_workers=jobs) as ex:
+                for (k, _), v in zip(work, ex.map(_decide, [w for _, w in work])):
+                    out[k] = v
+                    obligations[k].proved = (v.status == 'unsat')
+            pending = [k for k in pending if k not in set(ready)]
+            rnd += 1
     finally:
         if keep_dir is None:
             shutil.rmtree(tmp, ignore_errors=True)
     # models for sat
     for v in out:
-        if v.status == 'sat':
+        if v.status == 'sat' and v.ob.kind != 'hint':
             s = build_solver(v.ob, timeout_ms=timeout_s * 1000)
             if s.check() == z3.sat:
                 v.model = s.model()
